@@ -1,11 +1,17 @@
 #!/usr/bin/env python3
-"""tools/refrun.py <patch.diff>... : behaviour-preserving refactorings must never raise an alarm.
-For each patch: scratch worktree, existing suite must pass, then EVERY check is run; exit 1 anywhere is a FALSE ALARM."""
+"""tools/refrun.py [-j N] <patch.diff>... : behaviour-preserving refactorings must never raise an alarm.
+For each patch: scratch worktree (outside /repo and /verif, removed afterwards), the existing suite must pass, then EVERY check
+is run against it; exit 1 anywhere is a FALSE ALARM. Also reports for which groups the verifier could not be asked."""
 import json, os, shutil, subprocess, sys, time
+from concurrent.futures import ThreadPoolExecutor
 VERIF = os.path.dirname(os.path.dirname(os.path.abspath(__file__)))
 sys.path.insert(0, VERIF)
 from vlib import props
 env = dict(os.environ, CARGO_NET_OFFLINE='true')
+args = sys.argv[1:]
+jobs = 3
+if args and args[0] == '-j':
+    jobs = int(args[1]); args = args[2:]
 
 
 def sh(cmd, cwd=None, e=None):
@@ -13,18 +19,17 @@ def sh(cmd, cwd=None, e=None):
     return p.returncode, p.stdout + p.stderr
 
 
-for patch in [os.path.abspath(a) for a in sys.argv[1:]]:
-    W = '/tmp/refcheck-%d' % os.getpid()
+def one(patch):
+    W = '/tmp/refcheck-%d-%s' % (os.getpid(), os.path.basename(patch).replace('.', '_'))
     sh('git -C /repo worktree add -q --detach %s HEAD' % W)
+    lines = []
     try:
         rc, out = sh('git apply %s' % patch, cwd=W)
         if rc != 0:
-            print(patch, 'DOES NOT APPLY', out[-200:]); continue
+            return '%s DOES NOT APPLY %s' % (patch, out[-200:])
         rc, out = sh('cargo test --workspace --no-fail-fast --offline 2>&1 | grep -E "^test result|FAILED|error(\\[|:)"', cwd=W)
         ok = 'FAILED' not in out and 'error' not in out and 'test result: ok' in out
-        res = {}
-        alarms = []
-        notv = set()
+        res, alarms, notv = {}, [], set()
         for pid in sorted(props.PROPS):
             rc, out = sh('./check %s' % pid, cwd=VERIF, e=dict(env, PURL_REPO=W, VERIF_ISOLATE='1'))
             res[pid] = rc
@@ -33,9 +38,15 @@ for patch in [os.path.abspath(a) for a in sys.argv[1:]]:
                     notv.add(l.split(': V ')[1].split(':')[0] if ': V ' in l else l[:80])
             if rc == 1:
                 alarms.append((pid, [l[:300] for l in out.split('\n') if l.startswith('VIOLATION')][:3]))
-        print(patch, 'suite_ok=%s' % ok, 'exits', {k: v for k, v in res.items() if v != 0} or 'all 0', 'verifier-not-asked:', sorted(notv) or '-', flush=True)
+        lines.append('%s suite_ok=%s exits %s verifier-not-asked: %s' % (os.path.basename(patch), ok, {k: v for k, v in res.items() if v != 0} or 'all 0', sorted(notv) or '-'))
         for a in alarms:
-            print('   FALSE ALARM?', a, flush=True)
+            lines.append('   FALSE ALARM? %s' % (a,))
     finally:
         sh('git -C /repo worktree remove --force %s' % W)
         shutil.rmtree(W, ignore_errors=True)
+    return '\n'.join(lines)
+
+
+with ThreadPoolExecutor(jobs) as ex:
+    for r in ex.map(one, [os.path.abspath(a) for a in args]):
+        print(r, flush=True)
